@@ -126,7 +126,7 @@ def run(tier, replay=None):
             for it in he["items"]:
                 fn = names[it["file"] - 1] if it["file"] >= 1 and it["file"] <= len(names) else ""
                 lib.append({"level": it["level"], "title": it["title"], "file": fn, "line": it["l0"], "c0": it["c0"],
-                            "c1": it["c1"], "kind": it["title"].split(":")[0]})
+                            "c1": it["c1"], "kind": it["title"].split(":")[0], "r0": it["r0"], "r1": it["r1"]})
             js_raw = rv("--json")
             json_ok = True
             js = []
@@ -138,7 +138,8 @@ def run(tier, replay=None):
                     f = x["file"]
                     js.append({"level": x["level"], "title": x["title"], "file": paths.get(f, f if f is not None else ""),
                                "line": x["range"]["start"]["line"], "c0": x["range"]["start"]["column"],
-                               "c1": x["range"]["end"]["column"]})
+                               "c1": x["range"]["end"]["column"],
+                               "r0": x["range"]["start"]["raw"], "r1": x["range"]["end"]["raw"]})
                     if x["range"]["start"]["raw"] > x["range"]["end"]["raw"]:
                         json_ok = False
             except (ValueError, KeyError, TypeError):
